@@ -133,11 +133,17 @@ def _chunk(behs):
     return len(behs), bad
 
 
+# step-level properties of the small-step parser ([][A]_lvars), checked on every explored transition
+ACTION_PROPERTIES = ["Prop_AppendOnly", "Prop_ScannerForward", "Prop_LookAheadPure", "Prop_Requeue", "Prop_ErrorStays",
+                     "Prop_MoveOnlyOnDelivery", "Prop_DoneFinal"]
+
+
 def replay_sequences(max_lines: int, alphabet: str = "Kinds", prefix: str = "NoPrefix", max_errs: int = 1, invariants=None, timeout=3000):
     invariants = invariants if invariants is not None else ["Inv_StackIsPath", "Inv_Fifo", "Inv_Partition", "Inv_Accepted", "Inv_Linear"]
     with Scratch("l0") as sc:
         cfg = (f"SPECIFICATION Spec\nCONSTANT MaxLines = {max_lines}\nCONSTANT Alphabet <- {alphabet}\nCONSTANT Prefix <- {prefix}\n"
-               f"CONSTANT MaxErrs = {max_errs}\nCONSTRAINT Constraint\nCHECK_DEADLOCK FALSE\nVIEW View\n" + "".join(f"INVARIANT {i}\n" for i in invariants))
+               f"CONSTANT MaxErrs = {max_errs}\nCONSTRAINT Constraint\nCHECK_DEADLOCK FALSE\nVIEW View\n" + "".join(f"INVARIANT {i}\n" for i in invariants)
+               + "".join(f"PROPERTY {a}\n" for a in ACTION_PROPERTIES))
         sc.write("MC_L0_run.cfg", cfg)
         res = run_tlc(sc, "MC_L0", cfg="MC_L0_run.cfg", timeout=timeout, extra=["-continue"])
     if "Parsing or semantic analysis failed" in res.out or not res.finished or any("Invariant" not in e and "violated" not in e for e in res.errors):
